@@ -12,7 +12,7 @@ SITE = os.path.join(os.path.dirname(os.path.abspath(__file__)), "site")
 class Session:
     """One scratch area: trace dir + work dir.  Use as a context manager."""
 
-    def __init__(self, wlat=None, wlat_random=False, faults=None):
+    def __init__(self, wlat=None, wlat_random=False, faults=None, slow_key=None):
         self.dir = tempfile.mkdtemp(prefix="cv-")
         self.trace = os.path.join(self.dir, "trace")
         self.work = os.path.join(self.dir, "work")
@@ -24,6 +24,8 @@ class Session:
             self.env["CUBED_VERIF_WLAT"] = str(wlat)
             if wlat_random:
                 self.env["CUBED_VERIF_WLAT_RANDOM"] = "1"
+        if slow_key:
+            self.env["CUBED_VERIF_SLOW_KEY"] = f"{slow_key[0]}|{slow_key[1]}"
         if faults:
             import json
             fp = os.path.join(self.dir, "faults.json")
